@@ -24,8 +24,7 @@
    references stay lazy proxies (C14's subject).  Those parts rest on the
    correspondence and the oracle of harness/props/c09.py. *)
 From Coq Require Import ZArith List Bool.
-From PyecoreV Require Import Lib.PyBase Lib.PyList Model.OSet Model.XmiAttr Model.JsonVal Model.RefLoad
-     Proofs.OSetProofs Proofs.JsonValProofs Proofs.RefLoadProofs.
+From PyecoreV Require Import Lib.PyBase Lib.PyList Model.OSet Model.XmiAttr Model.JsonVal Model.RefLoad Proofs.OSetProofs Proofs.JsonValProofs Proofs.RefLoadProofs.
 Import ListNotations.
 Open Scope Z_scope.
 
